@@ -1135,6 +1135,24 @@ def boundary_selection_specs(rng, count):
     return out
 
 
+def twin_pipeline_specs(rng, count):
+    """Pairs (A, B): B is an independent pipeline on a fresh, NOT yet speciated population whose individuals coincide with
+    (or are close to) A's, with fresh operator instances and other seeds; both start with a speciation."""
+    out = []
+    for _ in range(count):
+        n, inds = random_population(rng, size=rng.randint(2, 6))
+        mk = lambda: [{"op": "speciation", "thr": rng.choice([1, 2, 2, 3]), "seed": rng.randint(0, 10**6)},  # noqa: E731
+                      {"op": "selection", "alpha": 0.125, "beta": 0.25, "tournament": rng.choice([None, 2]), "seed": rng.randint(0, 10**6)}] + random_steps(rng, rng.randint(0, 4))
+        a = {"n": n, "inds": inds, "reps": None, "steps": mk(), "workers": rng.randint(1, 3), "order": [rng.randint(0, 5) for _ in range(12)], "positive": False, "evalmode": "hash"}
+        inds_b = json.loads(json.dumps(inds))
+        if rng.random() < 0.5:
+            rng.shuffle(inds_b)
+            inds_b = inds_b[: max(2, len(inds_b) - 1)] + [evqe.random_valid_individual(rng, n=n)]
+        b = dict(a, inds=inds_b, steps=mk(), order=[rng.randint(0, 5) for _ in range(12)])
+        out += [a, b]
+    return out
+
+
 def precondition_specs(rng, count):
     """Selection NOT preceded by a speciation (documented precondition violated): EVQESelectionException after the
     evaluations and the count callback."""
@@ -1154,16 +1172,43 @@ def hash_equal_pairs(spec):
     return sum(1 for a in range(len(inds)) for b in range(a + 1, len(inds)) if keys[a] != keys[b] and inds[a] == inds[b])
 
 
-def drive(ctx, pid, specs, step_oracle, end_oracle, checker, corr_key, nontrivial=None):
+def recheck_trace(tr: "Trace", report):
+    """Compare every observation of an EARLIER, finished pipeline with its live object again (after other pipelines with
+    their own operator instances and populations have run in the same process).  A reported change updates the stored
+    snapshot, so that it is reported once."""
+    for o in tr.observations:
+        try:
+            now = snapshot_result(o.obj, tr.table) if o.kind == "payload" else snapshot_population(o.obj, tr.table)
+        except Exception as e:  # noqa: BLE001
+            report(f"changed-after-independent-pipeline-{o.kind}-unreadable", f"an object observed in an earlier pipeline (step {o.step}) can no longer be read: {type(e).__name__}: {e}", o.step)
+            continue
+        if now != o.snap:
+            field = _first_diff(o.snap, now)
+            what = {"argument": "a population passed to apply_operator", "payload": "an evaluation result reported through result_callback",
+                    "returned": "a population returned by apply_operator"}[o.kind]
+            opname = tr.steps[o.step].spec["op"] if o.step < len(tr.steps) else "?"
+            report(f"changed-after-independent-pipeline-{o.kind}-{field}",
+                   f"{what} in an earlier, finished pipeline (step {o.step}, {opname}) changed when an independent pipeline (fresh operator instances, fresh population) ran in the same process: "
+                   f"{field} was {_get(o.snap, field)} when observed, is {_get(now, field)} now", o.step)
+            o.snap = now
+
+
+def drive(ctx, pid, specs, step_oracle, end_oracle, checker, corr_key, nontrivial=None, pipelines=False):
     """Run every spec on the implementation, evaluate `step_oracle(trace, report, [(i, step)])` after every application
     and `end_oracle(trace, report)` at the end of the sequence, compare with the model through `checker`
     (check_case / check_heap_case).  Violations carry the spec (the operator sequence) as the replay."""
     from . import core
 
     glits, kept = [], []
+    alive = []  # (spec, trace) of every finished pipeline of this process
     for spec in specs:
         found = []
-        rep = lambda key, what, si: found.append((key, what, si))  # noqa: E731
+
+        def rep(key, what, si, _seen={}):  # noqa: B006 - at most two reports per key and sequence (a broken operator may fail at every index)
+            k = (id(found), key)
+            _seen[k] = _seen.get(k, 0) + 1
+            if _seen[k] <= 2:
+                found.append((key, what, si))
 
         def guarded_step(t, s, i):
             # whatever the implementation returned, evaluating the property on it must not crash the check
@@ -1186,6 +1231,15 @@ def drive(ctx, pid, specs, step_oracle, end_oracle, checker, corr_key, nontrivia
                 rep(f"unreadable-objects-{type(e).__name__}", f"the observed objects cannot be inspected at the end of the run: {type(e).__name__}: {e}", len(tr.steps) - 1)
         for key, what, si in found:
             ctx.violation("oracle", key, what, dict(spec, failing_step=si), detail=dict(completion_orders=[s.pi for s in tr.steps], executed_steps=len(tr.steps)))
+        if pipelines:
+            # independent pipelines in one process: the oldest and the most recent finished pipelines are looked at again
+            window = alive[:3] + [x for x in alive[-3:] if x not in alive[:3]]
+            for spec_a, tr_a in window:
+                hits = []
+                recheck_trace(tr_a, lambda key, what, si: hits.append((key, what, si)))
+                for key, what, si in hits:
+                    ctx.violation("oracle", key, what, dict(pipeline_a=spec_a, pipeline_b=spec, failing_step=si))
+            alive.append((spec, tr))
         ops = [s["op"] for s in spec["steps"]]
         ctx.case(spec, nontrivial=(len(tr.steps) >= 1 and len(spec["inds"]) >= 2) if nontrivial is None else nontrivial(spec, tr), sample=dict(n=spec["n"], individuals=len(spec["inds"]), ops=ops, workers=spec["workers"]))
         ctx.tally(f"qubits:{spec['n']}")
@@ -1234,6 +1288,14 @@ def drive(ctx, pid, specs, step_oracle, end_oracle, checker, corr_key, nontrivia
             ctx.tally("skipped-model-comparison:value-hash-collision")
         except Exception as e:  # noqa: BLE001
             ctx.violation("correspondence", f"{corr_key}-unrepresentable", f"the run cannot be written as a model case: {type(e).__name__}: {e}", spec)
+    if pipelines:
+        # at the end of the run: every finished pipeline once more
+        for k, (spec_a, tr_a) in enumerate(alive):
+            hits = []
+            recheck_trace(tr_a, lambda key, what, si: hits.append((key, what, si)))
+            for key, what, si in hits:
+                ctx.violation("oracle", key, what, dict(pipeline_a=spec_a, pipeline_b=None, later_pipelines=len(alive) - k - 1, failing_step=si))
+        ctx.notes["independent_pipelines_rechecked"] = len(alive)
     bad = core.model_mismatches(pid, IMPORTS, checker, glits, chunk=12, timeout=1200)
     if bad:
         # does the implementation behave like a legacy (pre-fix) variant of the model?
